@@ -606,7 +606,7 @@ func isClauseStart(w string) bool {
 	case "requires", "ensures", "exit", "before", "modifies", "pure", "loop", "assume", "trusted", "noinline", "serves", "option", "induction", "uses", "trigger", "recv", "ghostdef":
 		return true
 	}
-	return strings.HasPrefix(w, "ensures[") || strings.HasPrefix(w, "requires[")
+	return strings.HasPrefix(w, "ensures[") || strings.HasPrefix(w, "requires[") || strings.HasPrefix(w, "exit[") || strings.HasPrefix(w, "before[")
 }
 
 func splitTags(word string) (string, []string) {
